@@ -85,6 +85,11 @@ class LockStep:
         if case.get('method') == 'inverse':
             self.eps_grad = max(self.eps_grad, refkfac.EPS[self.fd or self.pd])
         self.eps_factor = refkfac.EPS[self.fd or self.pd]
+        # optional mixed precision: forward passes run inside torch.autocast (the documented AMP use, together with a grad scaler)
+        self.autocast = kmodel.dt(case.get('autocast'))
+        if self.autocast is not None and self.fd is None:
+            # factor_dtype=None is documented as "the data type of intermediate values", which is the autocast dtype here
+            self.eps_factor = max(self.eps_factor, refkfac.EPS[self.autocast])
         self.stats = {'worst_grad': 0.0, 'worst_factor': 0.0, 'max_tol': 0.0, 'informative_steps': 0}
         self.events = []      # (step index, factor_update, refresh) for non-triviality rules
 
@@ -123,15 +128,19 @@ class LockStep:
         sd = self.pre.state_dict()['layers']
         return {n: (sd[n]['A'], sd[n]['G']) for n in self.names}
 
+    def _fwd(self, model, x, lseed, n):
+        if self.autocast is None:
+            return kmodel.loss_of(model(x), lseed, n, self.case.get('loss_style', 'mix'))
+        with torch.autocast('cpu', dtype=self.autocast):
+            return kmodel.loss_of(model(x), lseed, n, self.case.get('loss_style', 'mix')).float()
+
     def _pass(self, x, lseed, n, train=True):
-        y = self.model(x)
-        loss = kmodel.loss_of(y, lseed, n, self.case.get('loss_style', 'mix'))
+        loss = self._fwd(self.model, x, lseed, n)
         ((loss * self.scale) if self.scale else loss).backward()
         self.rec.enabled = train
-        y2 = self.twin(x)
-        loss2 = kmodel.loss_of(y2, lseed, n, self.case.get('loss_style', 'mix'))
+        loss2 = self._fwd(self.twin, x, lseed, n)
         ((loss2 * self.scale) if self.scale else loss2).backward()
-        return y, y2
+        return None, None
 
     def train_iter(self, seed, sizes=None, reset_after=None, check=True, by=()):
         c = self.case
@@ -217,7 +226,10 @@ class LockStep:
                 if b is None:
                     return ('factor-missing', f'step {step_index}: factor {which} of layer {n} is None after a factor-update step')
                 want = self.fd or self.pd
-                if b.dtype != want:
+                if b.dtype != want and not (self.autocast is not None and self.fd is None):
+                    if self.autocast is not None and which == 'A' and b.dtype == self.autocast:
+                        return ('autocast-a-factor-dtype', f'step {step_index}: factor A of layer {n} is stored in {b.dtype} although factor_dtype={want} was '
+                                                           f'requested: the forward pre-hook computed it inside the caller\'s torch.autocast region')
                     return ('factor-dtype', f'step {step_index}: factor {which} of layer {n} has dtype {b.dtype}, requested {want}')
                 b64 = b.to(torch.float64)
                 if tuple(b64.shape) != tuple(refF.shape):
